@@ -80,6 +80,20 @@ def relation_check(ctx, c, outs):
         if np.abs(a3 - ref).max() > TOL_ANG:
             return (f"{G.name}: reduced angle to a third orientation ({G3.name}, {c['q3']}) is {ref!r} for O but "
                     f"{a3.tolist()} for its {c['rep']} representative")
+        # (b') the outer operations (in memory and lazy) and the distance matrix use the same equivalence relation
+        if c["rep"] == "equivalent" and c.get("outer"):
+            for lazy in (False, True):
+                ao = np.asarray(R.angle_with_outer(O3, lazy=lazy, chunk_size=20, progressbar=False)).reshape(-1)
+                if ao.shape != a3.shape or np.abs(ao - ref).max() > TOL_ANG:
+                    return (f"{G.name}: angle_with_outer(lazy={lazy}) to a third orientation ({G3.name}, {c['q3']}) is "
+                            f"{ao.tolist()} for the members of equivalent() but angle_with gives {ref!r} for O")
+            if c["k3"] == c["k"]:
+                Rp = R[~R.improper.reshape(-1)] if hasattr(R, "improper") else R
+                for lazy in (False, True):
+                    dm = np.asarray(Rp.get_distance_matrix(lazy=lazy, chunk_size=20, progressbar=False))
+                    if np.abs(dm).max() > TOL_ANG:
+                        return (f"{G.name}: get_distance_matrix(lazy={lazy}) among the proper members of equivalent() has an "
+                                f"entry {float(np.abs(dm).max())!r}, expected 0")
         # (c) same crystal direction in the fundamental sector, same IPF colour
         h0 = (O * v).data.reshape(3)
         hR = (R * v).data.reshape(-1, 3)
@@ -211,12 +225,12 @@ def generate(ctx):
             for rep in ("equivalent", "zone", "euler"):
                 q, s = GQ.unit_quat(rng)
                 c = {"k": k, "name": G.name, "rep": rep, "q": q, "q3": GQ.unit_quat(rng)[0],
-                     "k3": k if r % 2 == 0 else int(rng.integers(len(gs))), "v": GQ.vec(rng)}
+                     "k3": k if r % 2 == 0 else int(rng.integers(len(gs))), "v": GQ.vec(rng), "outer": r < 2}
                 ctx.count(f"relation/{rep}/{s}", ("r", k, rep, tuple(q)), nontrivial=G.size > 1)
                 yield "relation", c
-        for r in range(reps):
-            k3 = k if r == 0 else int(rng.integers(len(gs)))
-            rep = ("equivalent", "zone", "euler")[r % 3]
+        for r in range(1 if ctx.tier == "quick" else reps):
+            k3 = k if (r + k) % 2 == 0 else int(rng.integers(len(gs)))
+            rep = ("equivalent", "zone", "euler")[(r + k) % 3]
             q, s = GQ.unit_quat(rng)
             ctx.count(f"subtract/{rep}/{'same' if k3 == k else 'different'}", ("s", k, k3, tuple(q)), nontrivial=G.size > 1)
             yield "subtract", {"k": k, "k3": k3, "name": G.name, "rep": rep, "q": q, "q3": GQ.unit_quat(rng)[0]}
@@ -226,13 +240,15 @@ def generate(ctx):
     names = [G.name for G in gs]
     fam = [("432", "622"), ("622", "432"), ("23", "32"), ("32", "23"), ("m-3m", "6/mmm"), ("432", "32"), ("m-3m", "6mm"),
            ("422", "32"), ("-43m", "-6m2"), ("222", "3")]
+    if ctx.tier == "quick":
+        fam = [fam[i] for i in [0, 2, 3] + [int(x) for x in rng.choice(np.arange(4, len(fam)), 2, replace=False)]] + [fam[1]]
     for a, b in fam:
         if a in names and b in names:
             k, k3 = names.index(a), names.index(b)
             ctx.count("subtract/bulk-interphase", ("sb", k, k3), nontrivial=True)
             yield "subtract", {"k": k, "k3": k3, "name": a, "rep": "equivalent", "q": GQ.unit_quat(rng)[0],
                                "q3": GQ.unit_quat(rng)[0], "bulk": int(rng.integers(1 << 31)),
-                               "n": 300 if ctx.tier == "quick" else 3000}
+                               "n": 200 if ctx.tier == "quick" else 3000}
     ctx.sample({"site": "relation", **c})
 
 
